@@ -1108,6 +1108,15 @@ class StmtMixin:
                         g = self.variant_decreases(variant0, v1)
                         self.prove(s2, g, f"{base}/decreases", prop=self.prop_of(None), kind="loop")
                 elif k == "brk":
+                    for label, expr, prop in getattr(inv, "on_breaks", []):
+                        saved_start = getattr(self.ctl, "log_start", 0)
+                        self.ctl.log_start = iter_log_start
+                        self.ctl.iter = iter0
+                        try:
+                            g = self.spec_eval(expr, s2, {}, old=ctl.old if ctl else None, entry=entry)
+                        finally:
+                            self.ctl.log_start = saved_start
+                        self.prove(s2, g, f"{base}/on-break/{label}", prop=self.prop_of(prop), kind="loop")
                     outs.append(("next", s2, None))
                 else:
                     outs.append(o)
